@@ -154,7 +154,7 @@ def expanded_size(node, _memo=None):
 
 def corpus(ctx):
     tier = ctx.tier
-    nval = {"quick": 150, "thorough": 1200}[tier]
+    nval = {"quick": 150, "thorough": 400}[tier]
     seen = set()
 
     def emit(label, data):
@@ -174,7 +174,7 @@ def corpus(ctx):
     for label, data, _ in workload.vocab_fates(ctx):
         if data not in seen:
             seen.add(data)
-            if tier == "quick" and int(h(data)[:2], 16) % 4:
+            if int(h(data)[:2], 16) % (4 if tier == "quick" else 3):
                 continue          # the full vocabulary goes through the order-sensitivity pass anyway
             yield (label, data)
     for v in workload.values(ctx.seed, nval):
@@ -185,12 +185,12 @@ def corpus(ctx):
     short = {asm.assemble(p_) for p_ in asm.enumerate_programs(3)} if tier == "thorough" else set()
     for prog in asm.enumerate_programs({"quick": 3, "thorough": 4}[tier]):
         data_ = asm.assemble(prog)
-        if tier == "thorough" and data_ not in short and int(h(data_)[:2], 16) % 2:
-            continue          # every second length-4 program (all 41241 make the thorough tier run for over an hour)
+        if tier == "thorough" and data_ not in short and int(h(data_)[:2], 16) % 8:
+            continue          # every eighth length-4 program (all 41241 make the thorough tier run for over an hour)
         r = emit("exh", data_)
         if r:
             yield r
-    for i in range({"quick": 1500, "thorough": 15000}[tier]):
+    for i in range({"quick": 1500, "thorough": 5000}[tier]):
         r = emit("rand", asm.assemble(asm.random_program(asm.rng_for(ctx.seed, f"c13r{i}"), max_len=30)))
         if r:
             yield r
@@ -417,7 +417,7 @@ def run_shard(ctx):
         elif nontrivial:
             # bounded-exhaustive ordered selections on a deterministic subset of the corpus,
             # random sequences with repetition on everything
-            if int(ch[:2], 16) % (12 if ctx.tier == "quick" else 4) == 0 and len(data) < 2500:
+            if int(ch[:2], 16) % (12 if ctx.tier == "quick" else 6) == 0 and len(data) < 2500:
                 qs = [q for q in QUERIES if q not in ("dumps", "ast_dump", "str_results")]
                 # (ordered selections of 3 out of ~12 questions are 1320 sequences: only for short inputs)
                 seqs += [list(s) for s in itertools.permutations(qs, maxlen if len(data) < 200 else min(maxlen, 2))]
